@@ -177,6 +177,7 @@ def judge_model(rec, ctx, model, records, couplings):
 
     # ---- per chain ---------------------------------------------------------------------------------------
     groups: dict = {}
+    by_coeff: dict = {}
     n_interfering = Counter()
     for tr, expr in records:
         coeff_syms = [s for s in expr.free_symbols if s in P and s.name.startswith(("C_", "H_"))]
@@ -198,10 +199,38 @@ def judge_model(rec, ctx, model, records, couplings):
                   f"{label}: chain {_chain_str(tr)} = {got[0]:.6g} but coefficient x prod_nodes conj-D x CG x lineshape = +-{ref[0]:.6g}"
                   f" ({len(coeff_syms)} coefficient symbols, expected {n_coeff_expected})",
                   {"chain": _chain_str(tr), "expr": str(expr)[:400], "got": got, "ref": ref}, feats)
+        # (helicity formalism with the default names only: there a shared coefficient means "parity partner"; canonical LS coefficients and
+        # names without helicities are shared for other reasons)
+        if not couplings and not canonical and ctx.get("default_naming") and len(coeff_syms) == 1 and sign in (1, -1):
+            by_coeff.setdefault((coeff_syms[0], tr.topology), []).append((tr, sign))
         # a symmetrised chain (identical particles swapped) belongs to the amplitude of the transition it came from
         origin = RH.ORIGIN.get(RH.chain_key(tr), tr.topology)
         groups.setdefault((origin, RH.outer_key(tr)), []).append(got)
         n_interfering[origin, RH.outer_key(tr)] += 1
+
+    # ---- chains that share one coefficient because they are parity partners: relative sign = prod eta over the flipped nodes
+    import itertools as _it
+    for (csym, _top), lst in by_coeff.items():
+        pairs = list(_it.combinations(range(len(lst)), 2))[:30]
+        for ia, ib in pairs:
+            (ta, sa), (tb, sb) = lst[ia], lst[ib]
+            expected, comparable = 1, True
+            for node in sorted(ta.topology.nodes):
+                na, nb = RH.node_info(ta, node), RH.node_info(tb, node)
+                la, lb = (na["l1"], na["l2"]), (nb["l1"], nb["l2"])
+                if la == lb:
+                    continue
+                e_ = RH.eta(na)
+                if la == (-lb[0], -lb[1]) and ta.interactions[node].parity_prefactor is not None and e_ is not None:
+                    expected *= e_
+                else:
+                    comparable = False
+                    break
+            if not comparable:
+                continue
+            rec.check(sa * sb == expected, "parity_partner_sign",
+                      f"{label}: chains {_chain_str(ta)} and {_chain_str(tb)} share {csym} as parity partners; their relative sign is {sa * sb}, the product of the "
+                      f"parity factors of the flipped nodes is {expected}", {"a": _chain_str(ta), "b": _chain_str(tb)}, feats)
 
     # ---- amplitudes: A^topo[outer] = sum of its chains ----------------------------------------------------
     group_sum = {k: np.sum(v, axis=0) for k, v in groups.items()}
@@ -284,6 +313,7 @@ def run_case(case, rec, ctx):
     rf = reaction_features(reaction)
     ctx["feats"] = {**rf, "couplings": cfg["couplings"], "dynamics": bool(cfg["dynamics"]), "mode": case["mode"]}
     ctx["label"] = f"{rname} [{C.config_key(cfg)}]"
+    ctx["default_naming"] = not cfg.get("naming")
     ctx["judge"] = True
     ctx["interfering"] = 0
     _, b = C.build(reaction, cfg)
